@@ -53,12 +53,24 @@ func runC15(w *World, r *Report) {
 				fromA := Derives(v, func(x ssa.Value) bool { return np(x) == "param:agg."+src })
 				fromB := Derives(v, func(x ssa.Value) bool { return np(x) == "param:aggB."+src })
 				if fn == "AverageDuration" {
-					fromA = Derives(v, func(x ssa.Value) bool { c, ok := peel(x).(*ssa.Call); return ok && isCallTo(c, "EndpointAgg).TotalDuration") && np(c.Call.Args[0]) == "param:agg" })
-					fromB = Derives(v, func(x ssa.Value) bool { c, ok := peel(x).(*ssa.Call); return ok && isCallTo(c, "EndpointAgg).TotalDuration") && np(c.Call.Args[0]) == "param:aggB" })
+					fromA = Derives(v, func(x ssa.Value) bool {
+						c, ok := peel(x).(*ssa.Call)
+						return ok && isCallTo(c, "EndpointAgg).TotalDuration") && np(c.Call.Args[0]) == "param:agg"
+					})
+					fromB = Derives(v, func(x ssa.Value) bool {
+						c, ok := peel(x).(*ssa.Call)
+						return ok && isCallTo(c, "EndpointAgg).TotalDuration") && np(c.Call.Args[0]) == "param:aggB"
+					})
 				}
 				if fn == "AverageTotalDuration" {
-					fromA = Derives(v, func(x ssa.Value) bool { c, ok := peel(x).(*ssa.Call); return ok && isCallTo(c, "EndpointAgg).TotalSpoeAndProviderDuration") && np(c.Call.Args[0]) == "param:agg" })
-					fromB = Derives(v, func(x ssa.Value) bool { c, ok := peel(x).(*ssa.Call); return ok && isCallTo(c, "EndpointAgg).TotalSpoeAndProviderDuration") && np(c.Call.Args[0]) == "param:aggB" })
+					fromA = Derives(v, func(x ssa.Value) bool {
+						c, ok := peel(x).(*ssa.Call)
+						return ok && isCallTo(c, "EndpointAgg).TotalSpoeAndProviderDuration") && np(c.Call.Args[0]) == "param:agg"
+					})
+					fromB = Derives(v, func(x ssa.Value) bool {
+						c, ok := peel(x).(*ssa.Call)
+						return ok && isCallTo(c, "EndpointAgg).TotalSpoeAndProviderDuration") && np(c.Call.Args[0]) == "param:aggB"
+					})
 				}
 				okOp := false
 				p := np(v)
